@@ -1,7 +1,7 @@
 (** Extraction of the executable model to OCaml (ExtrOcamlBasic only: [N], [positive],
     [nat], [string], [ascii] stay the extracted Coq datatypes; no [Extract Constant]). *)
 From Coq Require Import Extraction ExtrOcamlBasic NArith List String.
-From SasLexer Require Import Gen.TokenType Gen.ErrorKind Gen.Channel Model.Base Model.Buffer Model.Core Model.Helpers Model.Numeric Model.Lexer1 Model.Lexer2 Model.Lexer3 Spec.RefLex Spec.Glue Proofs.WfCheck.
+From SasLexer Require Import Gen.TokenType Gen.ErrorKind Gen.Channel Model.Base Model.Buffer Model.Core Model.Helpers Model.Numeric Model.Lexer1 Model.Lexer2 Model.Lexer3 Spec.RefLex Spec.Glue Spec.Wire Proofs.WfCheck.
 Extraction Language OCaml.
 Extraction "model.ml"
   tt_to_N tt_of_N tt_name ek_code ek_of_code ek_name ch_to_N ch_name
@@ -12,4 +12,4 @@ Extraction "model.ml"
   get_token_end_line get_token_end_column get_token_payload
   lex mkCfg is_macro_amp get_macro_resolve_ops_from_amps is_macro_eval_mnemonic is_macro_stat
   lex_macro_call_stat_or_label parse_keyword parse_macro_keyword needs_macro_sep
-  try_parse_decimal try_parse_hex_integer parse_sas_hex_string utf8_encode_all reflex macro_free compose_check.
+  try_parse_decimal try_parse_hex_integer parse_sas_hex_string utf8_encode_all reflex macro_free compose_check decode encode py_decode.
